@@ -237,7 +237,8 @@ where
     /// assert!(a.out_degree() == 2);
     /// ```
     pub fn degree(&self) -> usize {
-        self.inner.2.read().unwrap().len_outbound() + self.inner.2.read().unwrap().len_inbound()
+        let adjacent = self.inner.2.read().unwrap();
+        adjacent.len_outbound() + adjacent.len_inbound()
     }
 
     /// Connects this node to another node. The connection is created in both
